@@ -560,7 +560,126 @@ func c13SharedCases() []c13Shared {
 	return out
 }
 
+// ---- the exported Sign* methods on an element the caller owns and reuses ----
+
+// c13Template: the caller keeps an unsigned element as a template, signs it (SignAuthnRequest /
+// SignLogoutRequest / SignLogoutResponse), keeps the signed message, then changes the template
+// in place (ID, the Issuer text, one more child) and signs it again. Both signed messages must
+// verify, each with the values the template had when it was signed, and the first must still
+// serialise to the bytes it serialised to before the template was touched again.
+type c13Template struct {
+	Template bool   `json:"signed_from_a_reused_template"`
+	Kind     string `json:"kind"`
+	Alg      int    `json:"alg"`
+	Canon    int    `json:"canon"`
+}
+
+func c13TemplateExec(t c13Template) (keys []string, detail, class string) {
+	c := c13Case{Keys: 0, Alg: t.Alg, Canon: t.Canon, Kind: t.Kind, Str: make([]int, sCount)}
+	sp, _ := c13SP(c)
+	kp := "C13/" + t.Kind + "/signed-from-a-reused-template/"
+	var first, firstLater, second string
+	var err error
+	p := guard(func() {
+		var doc *etree.Document
+		var sign func(*etree.Element) (*etree.Element, error)
+		switch t.Kind {
+		case "AuthnRequest":
+			doc, err = sp.BuildAuthRequestDocumentNoSig()
+			sign = sp.SignAuthnRequest
+		case "LogoutRequest":
+			doc, err = sp.BuildLogoutRequestDocumentNoSig("alice@example.com", "_session-1")
+			sign = sp.SignLogoutRequest
+		default:
+			doc, err = sp.BuildLogoutResponseDocumentNoSig(saml2.StatusCodeSuccess, "_req-1")
+			sign = sp.SignLogoutResponse
+		}
+		if err != nil {
+			return
+		}
+		el := doc.Root()
+		ser := func(e *etree.Element) string {
+			d := etree.NewDocument()
+			d.SetRoot(e.Copy())
+			x, _ := d.WriteToString()
+			return x
+		}
+		var s1, s2 *etree.Element
+		if s1, err = sign(el); err != nil {
+			return
+		}
+		first = ser(s1)
+		// the template is reused for the next message
+		el.CreateAttr("ID", "_second-message")
+		for _, ch := range el.ChildElements() {
+			if ch.Tag == "Issuer" {
+				ch.SetText("https://second.example.com/metadata")
+			}
+		}
+		el.CreateElement("samlp:Extensions").CreateElement("note").SetText("second")
+		if s2, err = sign(el); err != nil {
+			return
+		}
+		second = ser(s2)
+		firstLater = ser(s1)
+	})
+	detail = fmt.Sprintf("%+v | err=%v panic=%q", t, err, p)
+	if p != "" {
+		return []string{kp + "panic"}, detail, "panic"
+	}
+	if err != nil {
+		return []string{kp + "error"}, detail, "ERROR"
+	}
+	cert, _ := sp.GetSigningCertBytes()
+	rc, _ := x509.ParseCertificate(cert)
+	verify := func(x string) (string, error) {
+		d := etree.NewDocument()
+		if e := d.ReadFromString(x); e != nil {
+			return "", e
+		}
+		ctx := dsig.NewDefaultValidationContext(&dsig.MemoryX509CertificateStore{Roots: []*x509.Certificate{rc}})
+		ctx.Clock = world.Clock(world.T0)
+		if _, e := ctx.Validate(d.Root()); e != nil {
+			return "", e
+		}
+		return d.Root().SelectAttrValue("ID", ""), nil
+	}
+	if firstLater != first {
+		keys = append(keys, kp+"earlier-signed-message-changed-when-the-template-was-reused")
+		detail += fmt.Sprintf(" | first message then %.200q, later %.200q", first, firstLater)
+	}
+	if id, e := verify(firstLater); e != nil || id == "_second-message" {
+		keys = append(keys, kp+"earlier-signed-message-no-longer-verifies")
+		detail += fmt.Sprintf(" | first message, serialised after the second was signed: ID=%q %v", id, e)
+	}
+	if id, e := verify(second); e != nil || id != "_second-message" {
+		keys = append(keys, kp+"second-signed-message-does-not-verify-with-its-own-values")
+		detail += fmt.Sprintf(" | second message: ID=%q %v", id, e)
+	}
+	if len(keys) > 0 {
+		return dedupe(keys), detail, "DIFFERS"
+	}
+	return nil, detail, "template/verify"
+}
+
+func c13Templates() []c13Template {
+	var out []c13Template
+	for _, kind := range []string{"AuthnRequest", "LogoutRequest", "LogoutResponse"} {
+		for _, a := range []int{0, 1, 2, 4} {
+			for _, cn := range []int{0, 1, 3, 4} {
+				out = append(out, c13Template{Template: true, Kind: kind, Alg: a, Canon: cn})
+			}
+		}
+	}
+	return out
+}
+
 func c13Replay(raw json.RawMessage) ([]string, string) {
+	var tp c13Template
+	if err := json.Unmarshal(raw, &tp); err == nil && tp.Template {
+		k, d, _ := c13TemplateExec(tp)
+		return k, d
+	}
 	var sh c13Shared
 	if err := json.Unmarshal(raw, &sh); err == nil && sh.Shared {
 		k, d, _ := c13SharedExec(sh)
@@ -584,7 +703,7 @@ func c13Run(r *mc.Run) {
 	if r.Thorough() {
 		bound = 2
 	}
-	r.Rule = "full product key configuration(15: every non-empty subset of {encryption field, encryption setter, signing field, signing setter}, a distinct key per slot) x signature algorithm(6: unset, rsa-sha1/256/384/512, ecdsa-sha256 with a setter-supplied P-256 signer) x canonicaliser(8) x message kind(3) (logout kinds with SignAuthnRequests on and off; field key stores also as certificate chains and as a key store of a custom type), with <=1 (quick) / <=2 (thorough) of 12 configuration strings taken from a 17-value special-character alphabet; oracle = the recipient: re-parse from bytes, goxmldsig verification with exactly the reported certificate, declared algorithms, embedded certificate, placement after Issuer, metadata signing key; plus every operation sequence of <=4 (quick) / <=5 (thorough) steps over {SetSPKeyStore(key|nil), SetSPSigningKeyStore(key1|key2|nil), build of each kind} ending in a build, from two initial field configurations, replayed on a fresh instance: the last message must verify with the certificate the statement's rule picks from the setters in force at that moment (keys replaced after the instance has already signed); plus two providers handed the very same key store object (setter *KeyStore for the encryption or signing slot, or one X509KeyStore value in the field), full product (algorithm(4) x canonicaliser(3)) of each x 3 kind pairs x 3 slots, building A, B, A, B: each message follows the configuration of the provider that built it. non-trivial = a signed document was produced and verified; distinct = distinct case"
+	r.Rule = "full product key configuration(15: every non-empty subset of {encryption field, encryption setter, signing field, signing setter}, a distinct key per slot) x signature algorithm(6: unset, rsa-sha1/256/384/512, ecdsa-sha256 with a setter-supplied P-256 signer) x canonicaliser(8) x message kind(3) (logout kinds with SignAuthnRequests on and off; field key stores also as certificate chains and as a key store of a custom type), with <=1 (quick) / <=2 (thorough) of 12 configuration strings taken from a 17-value special-character alphabet; oracle = the recipient: re-parse from bytes, goxmldsig verification with exactly the reported certificate, declared algorithms, embedded certificate, placement after Issuer, metadata signing key; plus every operation sequence of <=4 (quick) / <=5 (thorough) steps over {SetSPKeyStore(key|nil), SetSPSigningKeyStore(key1|key2|nil), build of each kind} ending in a build, from two initial field configurations, replayed on a fresh instance: the last message must verify with the certificate the statement's rule picks from the setters in force at that moment (keys replaced after the instance has already signed); plus two providers handed the very same key store object (setter *KeyStore for the encryption or signing slot, or one X509KeyStore value in the field), full product (algorithm(4) x canonicaliser(3)) of each x 3 kind pairs x 3 slots, building A, B, A, B: each message follows the configuration of the provider that built it; plus the exported Sign* methods on a caller-owned element that is signed, changed in place (ID, Issuer, one more child) and signed again, kind(3) x algorithm(4) x canonicaliser(4): both messages verify with their own values and the first still serialises as it did. non-trivial = a signed document was produced and verified; distinct = distinct case"
 	r.Assume("goxmldsig's validator as the recipient's verifier (trusted base)")
 	var cases []c13Case
 	nk := len(c13AllKeys())
@@ -654,6 +773,19 @@ func c13Run(r *mc.Run) {
 		}
 		for _, k := range keys {
 			r.Violation(k, detail[:min(len(detail), 1500)], hists[i])
+		}
+	})
+	tmpls := c13Templates()
+	r.Set("signed_from_a_reused_template", len(tmpls))
+	defer r.Par(len(tmpls), func(i int) {
+		keys, detail, class := c13TemplateExec(tmpls[i])
+		r.Eval(2)
+		r.State(1)
+		r.Transition(2)
+		r.Bucket(class)
+		r.Nontrivial(fmt.Sprintf("%+v", tmpls[i]))
+		for _, k := range keys {
+			r.Violation(k, detail[:min(len(detail), 1500)], tmpls[i])
 		}
 	})
 	shared := c13SharedCases()
